@@ -59,10 +59,14 @@ try:
         sys.exit("patch does not apply: " + out)
     rcb, outb = sh("go build ./...", cwd=f"{wt}/utils")
     note(f"go build ./... with the change -> rc={rcb}")
+    for t in tests:  # the demonstration is not part of the repository's suite (a failing demo may leave processes behind)
+        os.remove(f"{wt}/utils/{pkgdir}/{t}")
     rct, outt = sh(f"python3 /verif/tools/baseline.py {wt} {' '.join(pkgs)}")
     if rct != 0:  # timing-sensitive tests under load: once more
         rct, outt = sh(f"python3 /verif/tools/baseline.py {wt} {' '.join(pkgs)}")
     note(f"repository baseline tests {' '.join(pkgs)} with the change -> {outt.strip().splitlines()[0] if outt.strip() else ''} rc={rct}")
+    for t in tests:
+        shutil.copy(f"{src}/demo/{t}", f"{wt}/utils/{pkgdir}/{t}")
     rc1, out1 = sh(demo, cwd=f"{wt}/utils", timeout=900)
     note(f"demo with the change -> {'PASS' if rc1 == 0 else 'FAIL'}")
     confirmed = rc0 == 0 and rcb == 0 and rct == 0 and rc1 != 0
